@@ -315,6 +315,25 @@ Definition subst_sel (sc : scope) (sel : list str) : outcome (list str) :=
         | None => RError $"SyntaxError" ($"Unknown escaped variable " ++ t)
         end
       else ROk (t :: rest))) (ROk []) sel.
+(* p_media_query_value: a variable used as the value of a media feature is replaced, while parsing, by the FIRST token of its
+   value in the scope of that moment; an unknown name is left for later *)
+Definition is_plain_var (t : str) : bool := match t with "@" :: "{" :: _ => false | "@" :: "@" :: _ => false | "@" :: _ :: _ => true | _ => false end.
+Definition subst_media (sc : scope) (sel : list str) : outcome (list str) :=
+  match sel with
+  | hd :: tl_ =>
+      if str_eqb hd $"@media" then
+        rbind (rmap_list (fun t =>
+                 if is_plain_var t then
+                   match variables t sc with
+                   | Some (VT s :: _) => ROk s
+                   | Some _ => REscaped $"NoModel: structured value in a media query"
+                   | None => ROk t
+                   end
+                 else ROk t) tl_) (fun tl' => ROk (hd :: tl'))
+      else ROk sel
+  | [] => ROk sel
+  end.
+
 Fixpoint presub_node (sc : scope) (n : node) {struct n} : outcome (node * scope) :=
   let go := fix go (sc1 : scope) (l : list node) : outcome (list node) :=
     match l with
@@ -324,7 +343,7 @@ Fixpoint presub_node (sc : scope) (n : node) {struct n} : outcome (node * scope)
   match n with
   | NVar name val => ROk (n, add_variable name val sc)
   | NBlock sel body =>
-      rbind (subst_sel sc sel) (fun sel' => rbind (go (push sc) body) (fun body' => ROk (NBlock sel' body', sc)))
+      rbind (rbind (subst_media sc sel) (subst_sel sc)) (fun sel' => rbind (go (push sc) body) (fun body' => ROk (NBlock sel' body', sc)))
   | NFrame sel body => rbind (go (push sc) body) (fun body' => ROk (NFrame sel body', sc))
   | _ => ROk (n, sc)
   end.
